@@ -19,11 +19,15 @@ class Page(object):
         self.location = None        # for redirects: (raw spelling, canonical target)
         self.nofollow = False
         self.extra_head = ''
+        self.base_href = None       # raw <base href> spelling; the links of the page are then spelled against base_url
+        self.base_url = None
         self.junk = []              # raw hrefs that are not parseable URLs
 
     def body(self):
         if self.kind == 'html' or self.kind == 'leaf':
             parts = ['<!DOCTYPE html><html><head><meta charset="utf-8"><title>', self.url, '</title>']
+            if self.base_href is not None:
+                parts.append('<base href="%s">' % self.base_href)
             parts.append(self.extra_head)
             for l in self.links:
                 if l['kind'] == 'css':
@@ -123,6 +127,7 @@ class Site(object):
         self.pages = {}
         self.start = None
         self.features = set()
+        self.optional = set()       # URLs a crawler may or may not request (the URL written in a <base> element); never pages
 
     def add(self, page):
         self.pages[page.url] = page
@@ -134,7 +139,7 @@ class Site(object):
 
 
 def generate(rng, host='a.test', n_pages=None, requisites=True, redirects=True, subdirs=True, spellings=None,
-             extra_hosts=(), junk_links=False, link_redirect_targets=False, frames=False):
+             extra_hosts=(), junk_links=False, link_redirect_targets=False, frames=False, bases=False):
     site = Site(host)
     n = n_pages or rng.choice([3, 5, 8, 12, 20, 40])
     base = 'http://' + host
@@ -268,12 +273,47 @@ def generate(rng, host='a.test', n_pages=None, requisites=True, redirects=True, 
         site.add(ext)
         add_link(rng, site, rng.choice(html), ext.url, 'a', ['absolute'])
         site.features.add('other-host-link')
+    if bases:
+        apply_bases(site, dirs)
     return site
+
+
+def apply_bases(site, dirs):
+    '''Give some pages a <base href> (absolute, scheme-relative, path-only or relative spelling; a file or a directory)
+    and spell their relative links against it.  The base URL is never a page; whether a crawler also treats the href
+    of the base element as a link is its own business, so that URL - resolved against the page or against the base
+    itself - goes to site.optional.  Uses its own generator so that the main stream is not disturbed.'''
+    from urllib.parse import urljoin
+    brng = random.Random(len(site.pages) * 7919 + sum(len(u) for u in site.pages))
+    root = 'http://' + site.host
+    k = 0
+    for url in sorted(site.pages):
+        page = site.pages[url]
+        if page.kind != 'html' or not page.links or brng.random() >= 0.25:
+            continue
+        k += 1
+        bdir = brng.choice(dirs + ['/assets/', '/d1/'])
+        base_url = root + bdir + brng.choice(['_base%d', '_base%d.html', '_b%d/']) % k
+        href, cls = spell(brng, url, base_url, ['relative', 'relative', 'abs-path', 'abs-path', 'absolute', 'scheme-relative', 'dot-relative'])
+        page.base_href, page.base_url = href, base_url
+        site.optional.add(base_url)
+        site.optional.add(urljoin(base_url, href))
+        site.features.add('base-href:' + cls)
+        for i, l in enumerate(page.links):
+            if split_url(l['target'])[1] != site.host:
+                continue
+            cls = l['spelling'] if l['spelling'] in ('relative', 'dot-relative') else None
+            if cls is None and i % 2 == 0:
+                cls = 'relative'
+            if cls:
+                l['href'], l['spelling'] = spell(brng, base_url, l['target'], [cls])
+                site.features.add('link-relative-to-base')
+    assert not (site.optional & set(site.pages))
 
 
 def add_link(rng, site, src, dst, kind, allow):
     page = site.pages[src]
-    href, cls = spell(rng, src, dst, allow)
+    href, cls = spell(rng, page.base_url or src, dst, allow)
     page.links.append({'href': href, 'kind': kind, 'target': dst, 'spelling': cls})
     site.features.add('spelling:' + cls)
 
